@@ -620,8 +620,7 @@ def _const_index_under_len_guard(b, cfg, tr, bi, t):
     cont = container_root(b, tr, t['args'][0])
     if cont is None or _resized(b, tr, cont):
         return None
-    lens = [tt['dest']['l'] for _bj, tt in b.calls() if call_matches(tt, 'Vec::<T, A>::len', '<impl [T]>::len') and tt['args']
-            and container_root(b, tr, tt['args'][0]) == cont]
+    lens = _c17.length_locals(b, tr, cont)
     if not lens:
         return None
     lo, hi, used = _c17.guard_interval(b, cfg, tr, lens, bi)
